@@ -1,0 +1,77 @@
+//go:build verif
+
+// Verification hooks (build tag "verif"): let an external harness construct a
+// WorkerToken client that talks to a given address without spawning a worker
+// process, read the back-off constants, and classify the errors the client
+// loop returns. Add-only; not compiled into normal builds.
+
+package worker
+
+import (
+	"context"
+	"errors"
+	"os"
+
+	"github.com/sassoftware/relic/v8/config"
+	"github.com/sassoftware/relic/v8/internal/httperror"
+	"github.com/sassoftware/relic/v8/token"
+)
+
+// The constants of retry.go and client.go, unchanged in kind (scaleFactor stays untyped).
+const (
+	VerifInitialDelay   = initialDelay
+	VerifScaleFactor    = scaleFactor
+	VerifMaxDelay       = maxDelay
+	VerifDefaultRetries = defaultRetries
+	VerifDefaultTimeout = defaultTimeout
+)
+
+// VerifNewClient is New without the listener set, the worker process and the monitor.
+func VerifNewClient(cfg *config.Config, tokenName, addr, cookie string) (*WorkerToken, error) {
+	tconf, err := cfg.GetToken(tokenName)
+	if err != nil {
+		return nil, err
+	}
+	ctx, cancel := context.WithCancel(context.Background())
+	return &WorkerToken{
+		config:      cfg,
+		tconf:       tconf,
+		cookie:      cookie,
+		addr:        addr,
+		ctx:         ctx,
+		cancel:      cancel,
+		procs:       make(map[int]struct{}),
+		procsExited: make(chan int, 10),
+	}, nil
+}
+
+// VerifErrInfo describes an error returned by the client loop without interpreting it:
+// which of the types/sentinels that retry.go and httperror.Temporary look at are present.
+type VerifErrInfo struct {
+	ResponseStatus int    // httperror.ResponseError in the chain: its StatusCode, else 0
+	ProblemStatus  int    // httperror.Problem in the chain: its Status, else 0
+	TokenError     bool   // worker.tokenError (direct)
+	Retryable      bool   // its Retryable flag
+	Usage          bool   // token.KeyUsageError in the chain
+	UsageKey       string // its Key
+	Syscall        bool   // *os.SyscallError in the chain
+	Temporary      bool   // httperror.Temporary(err)
+}
+
+func VerifDescribe(err error) (d VerifErrInfo) {
+	if e := new(httperror.ResponseError); errors.As(err, e) {
+		d.ResponseStatus = e.StatusCode
+	}
+	if e := new(httperror.Problem); errors.As(err, e) {
+		d.ProblemStatus = e.Status
+	}
+	if e, ok := err.(tokenError); ok {
+		d.TokenError, d.Retryable = true, e.Retryable
+	}
+	if e := new(token.KeyUsageError); errors.As(err, e) {
+		d.Usage, d.UsageKey = true, e.Key
+	}
+	d.Syscall = errors.As(err, new(*os.SyscallError))
+	d.Temporary = httperror.Temporary(err)
+	return
+}
